@@ -5,9 +5,9 @@ var intKinds = []int{2, 3, 4, 5, 6, 7, 8, 9, 10, 11, 12} // reflect.Int .. refle
 func init() {
 	props["C03"] = &Prop{
 		ID: "C03", PkgDir: "interp", PkgPath: interpPath, PkgName: "interp",
-		Harness:    []string{"interp_common.go", "big_common.go", "models_validate.go", "C03.go"},
+		Harness:        []string{"interp_common.go", "big_common.go", "models_validate.go", "C03.go"},
 		ObserveHarness: []string{"vv_models"},
-		Instrument: runidInstr,
+		Instrument:     runidInstr,
 		Obligs: func(tier string) []Oblig {
 			var r []Oblig
 			for _, k := range intKinds {
@@ -46,7 +46,7 @@ func init() {
 			}
 			return r
 		},
-		Redirects: map[string]string{"(*" + interpPath + ".node).cfgErrorf": "vmCfgErrorf"},
+		Redirects:   map[string]string{"(*" + interpPath + ".node).cfgErrorf": "vmCfgErrorf"},
 		Bounds:      []string{"integer constants of unbounded magnitude (SMT Int)", "all 11 integer kinds", "shift counts 0..64 (untyped) / 0..70 (typed)", "typed folding: all operand values of each of the 11 integer kinds", "strings: any ASCII string"},
 		Assumptions: []string{"go/constant modelled exactly on Int/String/Bool kinds; Float/Complex constants opaque", "reflect modelled on basic kinds (engine reflect model)", "typed folding: the harness repeats cfg.go's sequence fold-then-constOverflow; cfgErrorf replaced by a model (the message is not part of the property)"},
 		Outside:     []string{"float/complex representability and rounding", "iota and implicit repetition", "default types", "typed float constant overflow", "bitwise operators on constants outside [0, 2^64)", "len of constant arrays"},
